@@ -32,7 +32,7 @@ def run(rep, tier):
     # the same harnesses, loop free, for longer grids: the quantified grid preconditions are instantiated at the indices the call consults
     # (contracts/squids_l1.c sq_grid_instances); no loop is unwound (unwind 2 + unwinding assertions prove there is none).  NXU sizes the array objects only,
     # but CBMC's cost grows linearly with it (35 s at 16, 141 s at 64, time-out at 1024), so these jobs stay a BOUNDED stand-in with a larger bound.
-    NXU = 32 if tier == "quick" else 64
+    NXU = 32          # both tiers: 64 costs 141 s per job on an idle machine and was not measured under the load of a full thorough run
     DU = ["NXB=%d" % NXU, "NRB=2", "NSB=1", "NXG=%d" % NXU, "NXU=%d" % NXU]
     jobs += [l1.Job(n + "_anynx", ct, "h_" + n, includes=INC, defines=DU, unwind=2, complete=False, bound_text="nx<=%d (array object size; no loop unwound)" % NXU, timeout=900, slice_formula=True,
                     sat_solver="cadical", function_label=lab + " [loop-free harness]", where="src/SQuIDS.cpp") for n, lab in JOBS.items()]
